@@ -233,7 +233,8 @@ class PersLandscapeApprox(PersLandscape):
                 L[k][i] = W[i][k]
         # check if L is empty
         if not L.size:
-            L = np.array(["empty"])
+            # no bar is long enough to be seen on this grid: the landscape is the zero function
+            L = np.zeros((1, self.num_steps))
             print("Bad choice of grid, values is empty")
         self.values = L
         self.max_depth = len(L)
